@@ -4,6 +4,7 @@
    Part 2: MPT-based state synchronisation (pkg/core/statesync, mpt.Billet), all delivery orders/batchings/duplications,
            foreign and undecodable data, restarts at any point. *)
 From NG Require Import Common.Tactics Sync.Queue Sync.QueueProofs Sync.Restore Sync.RestoreProofs Sync.RestoreExamples.
+From NG Require Sync.Blocks.
 Open Scope N_scope.
 
 (* ---------- part 1: block queue ---------- *)
@@ -142,3 +143,38 @@ Example C20_restore_example :
             count_of s 2 = 2%nat /\ count_of s 1 = 1%nat /\
             temp_storage exT s = [([2; 5; 6], 8); ([0], 7); ([1], 7)].
 Proof. split; [exact exT_rank|]. split; [exact exT_fuel|]. split; [exact ex_ops_genuine|exact ex_run_completes]. Qed.
+
+(* ---------- part 2b: the blocks stage (added after the third independent mutation round) ---------- *)
+
+(* A block is accepted by the blocks stage only as the next index, only if its Blocks.header hash is the hash of the Blocks.header
+   synchronised before AND the Merkle root of the delivered transaction list is the one in its Blocks.header — for every block,
+   also one delivered with an empty list; the accepted block is what gets Blocks.stored *)
+Theorem C20_blocks_stage_accepts_only_committed : forall (tx : Type) (merkle : list tx -> N) (hhash : Blocks.header -> N)
+  (s : Blocks.bst tx) (b : Blocks.blk tx) (s' : Blocks.bst tx),
+  Blocks.add_block tx merkle hhash s b = Some s' ->
+  hhash (Blocks.bhdr tx b) = Blocks.synced_hash tx s (Blocks.hidx (Blocks.bhdr tx b)) /\ merkle (Blocks.btxs tx b) = Blocks.hmerkle (Blocks.bhdr tx b) /\
+  Blocks.hidx (Blocks.bhdr tx b) = Blocks.bheight tx s + 1 /\ Blocks.stored tx s' = b :: Blocks.stored tx s.
+Proof. exact Blocks.add_block_sound. Qed.
+Print Assumptions C20_blocks_stage_accepts_only_committed.
+
+(* with collision-free Blocks.header hash and Merkle root: data that is not the source chain's block of that index — Blocks.header or
+   transaction list — is refused *)
+Theorem C20_blocks_stage_rejects_foreign : forall (tx : Type) (merkle : list tx -> N) (hhash : Blocks.header -> N),
+  (forall a b, hhash a = hhash b -> a = b) -> (forall a b, merkle a = merkle b -> a = b) ->
+  forall (s : Blocks.bst tx) (b : Blocks.blk tx) (s' : Blocks.bst tx) (src : N -> Blocks.blk tx),
+  (forall i, hhash (Blocks.bhdr tx (src i)) = Blocks.synced_hash tx s i /\ merkle (Blocks.btxs tx (src i)) = Blocks.hmerkle (Blocks.bhdr tx (src i))) ->
+  Blocks.add_block tx merkle hhash s b = Some s' -> b = src (Blocks.hidx (Blocks.bhdr tx b)).
+Proof. exact Blocks.blocks_stage_rejects_foreign. Qed.
+Print Assumptions C20_blocks_stage_rejects_foreign.
+
+(* non-vacuity: transactions are numbers, the "Merkle root" of a list is a positional sum, the Blocks.header hash a pairing; the
+   genuine block 8 with transactions [3; 4] is accepted, the same Blocks.header with the list stripped or reordered is not *)
+Example C20_blocks_stage_example :
+  let merkle := fun l : list N => fold_left (fun a x => 10 * a + x + 1) l 0 in
+  let hhash := fun h : Blocks.header => 1000 * Blocks.hidx h + 100 * Blocks.hrest h + Blocks.hmerkle h in
+  let hd := Blocks.mkH 8 45 2 in
+  let s := Blocks.mkBS N true 7 9 (fun i => if i =? 8 then hhash hd else 0) [] in
+  (exists s', Blocks.add_block N merkle hhash s (Blocks.mkB N hd [3; 4]) = Some s' /\ Blocks.bheight N s' = 8) /\
+  Blocks.add_block N merkle hhash s (Blocks.mkB N hd []) = None /\
+  Blocks.add_block N merkle hhash s (Blocks.mkB N hd [4; 3]) = None.
+Proof. vm_compute. split; [eexists; split; reflexivity|split; reflexivity]. Qed.
